@@ -7,4 +7,4 @@ print("|---|---|---|---|---|")
 for f in sorted(glob.glob(V + "/seeded/*/meta.json")):
     m = json.load(open(f))
     sig = (m["first_signatures"] or ["-"])[0]
-    print("| %s | %s | %s | %s | `%s` |" % (m["name"], m["what_it_changes"].replace("|", "/"), m["needs_to_manifest"].replace("|", "/"), ", ".join(m["caught_by"]) or "**MISSED**", sig[:110]))
+    print("| %s | %s | %s | %s | `%s` |" % (m["name"], m["what_it_changes"].replace("|", "/"), m["needs_to_manifest"].replace("|", "/"), ", ".join(m["caught_by"]) or ("not reported (outside the domain, by design)" if "by design" in m["status"] else "**MISSED**"), sig[:110]))
